@@ -2,7 +2,7 @@
 import os
 
 from . import core
-from .rules import stdio, cert, mark, exact, optstore, inval, idx, atomic, own, tokens, idxclass, copy, pair, structfree, buf, div, counter, sentinel, appendinit, verdict, basismap, zerotol, escape, lenclass, djsym, ndet, useb4check, norms, opencheck, shell, esolver, errlost, rescan, certdep, neverset, fmt, defaults, scratch, fullscan, slotleak, floatidx, sensemap, trunc, vtypezero, allockind, intdiv, strscan, localfield, rawidx, argcap, staleptr, condalloc, lpstate, vstattype, alphabet, outleak, fieldleak, lenm1, basisdim, dupmark
+from .rules import stdio, cert, mark, exact, optstore, inval, idx, atomic, own, tokens, idxclass, copy, pair, structfree, buf, div, counter, sentinel, appendinit, verdict, basismap, zerotol, escape, lenclass, djsym, ndet, useb4check, norms, opencheck, shell, esolver, errlost, rescan, certdep, neverset, fmt, defaults, scratch, fullscan, slotleak, floatidx, sensemap, trunc, vtypezero, allockind, intdiv, strscan, localfield, rawidx, argcap, staleptr, condalloc, lpstate, vstattype, alphabet, outleak, fieldleak, lenm1, basisdim, dupmark, rowcopy
 from .effects import Effects
 
 FIX = os.path.join(os.path.dirname(os.path.abspath(__file__)), "fixtures")
@@ -163,6 +163,7 @@ def c01_rules():
         lambda prog, tier: vtypezero.run(prog),
         lambda prog, tier: escape.run_extcopy(prog),
         lambda prog, tier: argcap.run(prog, floor=40),
+        lambda prog, tier: rowcopy.run(prog, shared_eff(prog)),
     ]
 
 
@@ -196,6 +197,7 @@ def c05_rules():
         lambda prog, tier: djsym.run_keepcache(prog),
         lambda prog, tier: inval.run_skipgate(prog),
         lambda prog, tier: vstattype.run(prog),
+        lambda prog, tier: rowcopy.run(prog, shared_eff(prog)),
         lambda prog, tier: vtypezero.run(prog),
         lambda prog, tier: escape.run_extcopy(prog),
     ]
@@ -669,7 +671,9 @@ _ADD = {
                            "value that lets ILLlib_delrows keep the cached solution rejects both signs; (R-SKIPGATE) a solve entry point answers from the "
                            "cache only under tests of p->basis, p->cache and p->factorok; (R-VSTATTYPE) the simplex driver reads the non-basic statuses "
                            "only after a pass that sets each of them from the variable's type (a bound made infinite since the last solve, or a "
-                           "caller's status letter that does not fit the bounds, cannot enter the computation)."},
+                           "caller's status letter that does not fit the bounds, cannot enter the computation); (R-ROWCOPY) every library function that "
+                           "stores into the arrays of the column matrix has tested-and-released the cached row copy rA on a dominating position "
+                           "(mutators computed from effect summaries)."},
     "C07": {"technique": "; computed simplex-state fields of lpinfo + unguarded-read summaries + dominance of the API hand-over by the factorok test; "
                          "alphabet discovery + dominating-validator check for caller-supplied selector letters",
             "explanation": " (R-LPSTATE) the index-taking calls that work on the simplex data of the problem (tableau rows, pivot-in lists, basis "
